@@ -54,6 +54,19 @@ def run_shard(spec, rep):
         rng = gen.case_rng(PROP, spec["seed"], spec["shard"], index)
         near = rng.random() < 0.6
         fc = gen.FluxCase(rng, modes=["Tnear"] if near else ["T", "P", "Psmall", "Tnear", "V"] * 5 + ["Pneutral"])
+        if near and index % 25 == 0:
+            # critical slowing down: just below the permeate temperature at which this state's map stops contracting the
+            # iteration still converges, but arbitrarily slowly - a bound must hold there as well
+            from . import c02
+
+            try:
+                tflip = c02.flip_temperature(fc, rng)
+            except Exception:
+                tflip = None
+            if tflip is not None:
+                fc.tp, fc.pp, fc.mode = tflip, None, "Tflip"
+                fc.precision = rng.choice([fc.precision, 5e-5, 1e-6])
+                rep.count("critical_slowing_cases")
         case = dict(fc.describe(), index=index)
         rep.case(case, nontrivial=fc.mode != "V", cls=f"{fc.model}-{fc.mode}")
         _guarded(rep, case, "flux", lambda: fc.pv.calculate_partial_fluxes(**fc.kwargs()))
